@@ -8,6 +8,8 @@ no proper prefix (nor a zero-filled file) unpickles successfully - the load eith
 raises or returns the complete object; a dbm/shelve file that cannot be opened raises.
 R11b  a dbm/shelve store is read completely inside that try (copied into memory) and not kept: a store that is
       damaged inside can open without error and only fail at a look-up
+R11c  a dbm/shelve index carries a count of its entries, written last by the writer and compared by the loader under the
+      guard: a store that lost entries (its directory cut at a record boundary or emptied) still opens
 Not decided: corruption that is not a prefix.
 """
 
@@ -45,6 +47,90 @@ def deser_sites(ctx, eff):
     return out
 
 
+def _key_const(ctx, node, func, cls):
+    from ..paths import NOCONST, const_value
+
+    v = const_value(ctx.prog, node, func, cls)
+    return v if v is not NOCONST and isinstance(v, (str, bytes, int)) else None
+
+
+def completeness_obligations(ctx, rep, eff, site, H):
+    """Loader: some comparison of len(<loaded index>) with an entry read from it under a constant key, whose failure raises
+    inside the guarding try.  Writer (the function of the same class that opens the store for writing): that key is stored
+    with len(<index>) as the last write."""
+    prog = ctx.prog
+    f = site.func
+    cls = f.cls
+    problems = []
+    key = None
+    for n in ast.walk(f.node):
+        if not isinstance(n, ast.Compare) or len(n.ops) != 1:
+            continue
+        sides = [n.left, n.comparators[0]]
+        lens = [x for x in sides if any(isinstance(c, ast.Call) and dotted(c.func) == "len" for c in ast.walk(x))]
+        reads = []
+        for x in sides:
+            for c in ast.walk(x):
+                if isinstance(c, ast.Call) and isinstance(c.func, ast.Attribute) and c.func.attr in ("pop", "get") and c.args:
+                    k = _key_const(ctx, c.args[0], f, cls)
+                    if k is not None:
+                        reads.append(k)
+                if isinstance(c, ast.Subscript) and not isinstance(c.slice, ast.Slice):
+                    k = _key_const(ctx, c.slice, f, cls)
+                    if k is not None:
+                        reads.append(k)
+        if not lens or not reads:
+            continue
+        # the failing outcome raises (under the guard) or leads to the rebuild
+        from ..structure import parents
+
+        pm = parents(f.node)
+        par = pm.get(n)
+        while par is not None and not isinstance(par, (ast.If, ast.Assert, ast.stmt)):
+            par = pm.get(par)
+        acts = False
+        if isinstance(par, ast.Assert):
+            acts = False  # disabled under -O
+        elif isinstance(par, ast.If):
+            body = par.body if isinstance(n.ops[0], (ast.NotEq, ast.IsNot)) else par.orelse or par.body
+            acts = any(isinstance(x, (ast.Raise, ast.Return)) or (isinstance(x, ast.Call) and isinstance(x.func, ast.Attribute) and "populate" in x.func.attr)
+                       for st_ in body for x in ast.walk(st_))
+            raises = [x for st_ in par.body + par.orelse for x in ast.walk(st_) if isinstance(x, ast.Raise)]
+            if raises and not any(enclosing_tries(f.node, r) for r in raises):
+                acts = False
+        if acts:
+            key = reads[0]
+    if key is None:
+        problems.append("the loaded index is not compared with an entry count stored in it: a store that opens after losing entries "
+                        "(directory file cut at a record boundary or emptied) is used as a complete index")
+    # the writer
+    writers = []
+    for c in prog.mro(cls) if cls is not None else []:
+        for m in c.methods.values():
+            for n in ast.walk(m.node):
+                if isinstance(n, ast.Call) and dotted(n.func) in ("shelve.open", "dbm.open"):
+                    from ..effects import open_mode
+
+                    if open_mode(n, dotted(n.func)) in ("n", "c", "w"):
+                        writers.append((m, n))
+    if key is not None:
+        if not writers:
+            problems.append("no function writes the store the loader checks")
+        for m, n in writers:
+            stores = [a for a in ast.walk(m.node) if isinstance(a, ast.Assign) and isinstance(a.targets[0], ast.Subscript)]
+            marks = [a for a in stores if _key_const(ctx, a.targets[0].slice, m, cls) == key]
+            if not marks:
+                problems.append(f"{m.qualname} does not store the entry count under {key!r}")
+                continue
+            mk = marks[-1]
+            if not any(isinstance(c, ast.Call) and dotted(c.func) == "len" for c in ast.walk(mk.value)):
+                problems.append(f"{m.qualname} stores something other than the number of entries under {key!r}")
+            later = [a for a in stores if a.lineno > mk.lineno and a not in marks]
+            if later:
+                problems.append(f"{m.qualname} writes entries after the count: a store cut short can still hold the count")
+    rep.add("R11c", f"{f.qualname}: index completeness checked", not problems, ctx.where(f, site.call), "; ".join(problems), key=f"R11c|{f.qualname}")
+
+
 def check(ctx, rep):
     prog = ctx.prog
     eff = Effects(prog, ctx.resolver)
@@ -52,7 +138,13 @@ def check(ctx, rep):
              "regenerates and does not mark the listing as cached", floor=2)
     rep.assume("CPython pickle framing: a proper prefix of a pickle never loads successfully (STOP is the last opcode)")
     rep.rule("R11b", "a dbm/shelve index is read completely under the guard and the store itself is not kept (look-ups in a damaged store fail lazily)", floor=1)
+    rep.rule("R11c", "a dbm/shelve index is checked for completeness: the writer stores an entry count last, the loader compares it under the guard", floor=1)
     sites = deser_sites(ctx, eff)
+    done_c = set()
+    for s, H in sites:
+        if s.target.name in ("shelve.open", "dbm.open") and s.func not in done_c:
+            done_c.add(s.func)
+            completeness_obligations(ctx, rep, eff, s, H)
     for s, H in sites:
         f = s.func
         rep.analysed(f.qualname)
